@@ -90,7 +90,11 @@ validate = Contract(
 
 set_error_state = Contract(
     target=E + "set_error_state", types=dict(TYPES, self="Engine"), calls=CALLS,
-    requires=SELF_INV + ["self._runstate_started", 'self.ghost_sys_state != "Restarting"'], ensures=SELF_INV[:2] + [("paused", "self._runstate_paused")], raises={})
+    requires=SELF_INV + ['self.ghost_sys_state != "Restarting"'],
+    ensures=SELF_INV[:2] + [("an-active-run-is-paused-by-the-error", "implies(old(self._runstate_started), self._runstate_paused)"),
+                            ("without-a-run-the-state-stays-stopped",
+                             "implies(not old(self._runstate_started), not self._runstate_started and self._runstate_paused == old(self._runstate_paused))")],
+    raises={})
 
 CONTRACTS = contracts + [validate, set_error_state]
 TARGETS = [c.key for c in CONTRACTS]
